@@ -75,7 +75,7 @@ theorem step_cfg (s : St) (o : Op) : (step s o).1.cfg = s.cfg := by
   | tick taken =>
     simp only [step, tick]
     split <;> rfl
-  | eject bytes imp order =>
+  | eject bytes imp order ages =>
     simp only [step, eject]
     split <;> rfl
 
@@ -102,7 +102,7 @@ theorem step_nodup (s : St) (o : Op) (h : AList.NoDupKeys s.buf) : AList.NoDupKe
     split
     · exact AList.nodup_filter _ h _
     · exact h
-  | eject bytes imp order =>
+  | eject bytes imp order ages =>
     simp only [step, eject]
     split
     · exact AList.nodup_filter _ h _
@@ -409,7 +409,7 @@ theorem inv_step {c : Cfg} {s : St} {sp : Spec} (h : Inv c s sp) (o : Op) :
     split
     · next hv => exact inv_removeIds h taken (fun id hid => expiredIds_sub_keys s id (hv.2.1 id hid))
     · exact h
-  | eject bytes imp order =>
+  | eject bytes imp order ages =>
     simp only [step, eject]
     split
     · next hv => exact inv_removeIds h order hv.2.1
@@ -459,15 +459,17 @@ theorem tick_accepted {s : St} {taken : List Nat} {l : List Sent} {left : List N
   · cases h
 
 theorem eject_accepted {s : St} {bytes : Nat} {imp : AList Nat Nat} {order : List Nat}
-    {l : List Sent} {left : List Nat}
-    (h : (step s (.eject bytes imp order)).2 = .sent l left) :
-    ValidEject s bytes imp order ∧ l = sentOf s (fun _ => Reason.ejectedMemsize) order ∧
-      (step s (.eject bytes imp order)).1 = removeIds s order ∧ left = leftIds (removeIds s order) := by
+    {ages : AList Nat (List (Nat × Nat × Nat))} {l : List Sent} {left : List Nat}
+    (h : (step s (.eject bytes imp order ages)).2 = .sent l left) :
+    ValidEject s bytes imp order ages ∧ l = sentOf s (fun _ => Reason.ejectedMemsize) order ∧
+      (step s (.eject bytes imp order ages)).1 = setMemo (removeIds s order) (memoAfter s imp) ∧
+      left = leftIds (removeIds s order) := by
   simp only [step, eject] at h ⊢
   split at h
   · rename_i hv
     simp only [Out.sent.injEq] at h
-    simp [hv, h.1, h.2]
+    refine ⟨by simp [hv], h.1.symm, by simp [hv], ?_⟩
+    rw [← h.2]; rfl
   · cases h
 
 /-- every id of `ids` that is buffered yields one entry, in order -/
@@ -660,7 +662,7 @@ theorem step_now_le (s : St) (o : Op) : s.now ≤ (step s o).1.now := by
     · exact Int.le_refl _
     · split <;> exact Int.le_refl _
   | tick taken => simp only [step, tick]; split <;> exact Int.le_refl _
-  | eject b i o => simp only [step, eject]; split <;> exact Int.le_refl _
+  | eject b i o a => simp only [step, eject]; split <;> exact Int.le_refl _
 
 
 /-! ### the sorted-list priority queue and the loop of `TakeExpiredTraces` -/
